@@ -804,3 +804,192 @@ Proof.
     { apply filter_In. split; auto. unfold is_ia. cbn. now rewrite !N.eqb_refl. }
     destruct (filter (is_ia i a) ms); [destruct Hf|cbn; lia].
 Qed.
+
+(** ** the empty pattern: reported exactly once per host *)
+Definition cntp (i : N) (ms : list (N * spm)) : nat := length (filter (fun pm => N.eqb (fst pm) i) ms).
+
+Lemma cntp_app i l1 l2 : cntp i (l1 ++ l2) = (cntp i l1 + cntp i l2)%nat.
+Proof. unfold cntp. now rewrite filter_app, app_length. Qed.
+
+Lemma cntp_map i pid (bs : list spm) : cntp i (map (fun b => (pid, b)) bs) = if N.eqb pid i then length bs else 0%nat.
+Proof.
+  unfold cntp. induction bs as [|b bs IH]; cbn [map filter fst]; [destruct (N.eqb pid i); reflexivity|].
+  destruct (N.eqb pid i) eqn:E; cbn [length]; [now rewrite IH|exact IH].
+Qed.
+
+Lemma cntp_pos_in i ms : (0 < cntp i ms)%nat <-> exists m, In (i, m) ms.
+Proof.
+  unfold cntp. split.
+  - intros Hpos. destruct (filter (fun pm => N.eqb (fst pm) i) ms) as [|[pid m] r] eqn:Ef; [cbn in Hpos; lia|].
+    assert (Hin : In (pid, m) (filter (fun pm => N.eqb (fst pm) i) ms)) by (rewrite Ef; now left).
+    apply filter_In in Hin as [Hin Hf]. cbn in Hf. apply N.eqb_eq in Hf. subst. eauto.
+  - intros [m Hin]. assert (Hf : In (i, m) (filter (fun pm => N.eqb (fst pm) i) ms)).
+    { apply filter_In. split; auto. cbn. apply N.eqb_refl. }
+    destruct (filter (fun pm => N.eqb (fst pm) i) ms); [destruct Hf|cbn; lia].
+Qed.
+
+(** the entries for pattern [i] emitted at one item come from the (unique) match entry of [i] *)
+Lemma s_emit_cntp h (st : astate N cpredicate) m e i :
+  NoDup (map fst (a_matches st)) -> emissions string_dom h st m = Ok e ->
+  ((0 < cntp i e)%nat -> In i (map fst (a_matches st)))
+  /\ (In (i, []) (a_matches st) -> cntp i e = 1%nat /\ In (i, SUnbound) e).
+Proof.
+  intros Hnd. unfold emissions. revert e. induction (a_matches st) as [|[pid keys] l IH]; intros e Em.
+  - cbn in Em. inversion Em; subst. cbn. split; [intros C; lia|intros []].
+  - cbn [rflatM] in Em.
+    match type of Em with rbind ?x _ = _ => destruct x as [e1| |] eqn:E1 end; cbn [rbind] in Em; try discriminate.
+    destruct (rflatM _ l) as [e'| |] eqn:E'; cbn [rbind] in Em; try discriminate. inversion Em; subst e.
+    inversion Hnd as [|? ? Hni Hnd']; subst. destruct (IH Hnd' e' eq_refl) as [IH1 IH2].
+    set (new_keys := filter (fun k => match mget string_dom m k with None => true | Some _ => false end) keys) in E1.
+    destruct (match new_keys with [] => Ok [m] | _ => bind_all string_dom h m new_keys false end) as [bs| |] eqn:B;
+      cbn [rbind] in E1; try discriminate.
+    destruct (rmapM (mretain string_dom keys) bs) as [bs'| |] eqn:R; cbn [rbind] in E1; try discriminate.
+    inversion E1; subst e1. rewrite cntp_app, cntp_map. split.
+    + intros Hpos. destruct (N.eqb_spec pid i) as [->|Hpi]; [now left|]. right. apply IH1. cbn [plus] in Hpos. exact Hpos.
+    + intros [Eq|Hin].
+      * inversion Eq; subst pid keys. rewrite N.eqb_refl.
+        assert (cntp i e' = 0%nat) as ->.
+        { destruct (cntp i e') eqn:Ec; auto. exfalso. apply Hni. apply IH1. lia. }
+        unfold new_keys in B. cbn [filter] in B. inversion B; subst bs. cbn [rmapM] in R.
+        change (mretain string_dom [] m) with (retain_rounds_default SUnbound sget sbind [] m) in R.
+        rewrite s_retain_nil in R. cbn [rbind rmapM] in R. inversion R; subst bs'. cbn [length map]. split; [lia|].
+        apply in_or_app. left. now left.
+      * destruct (N.eqb_spec pid i) as [->|Hpi].
+        { exfalso. apply Hni. apply in_map_iff. exists (i, []). auto. }
+        cbn [plus]. destruct (IH2 Hin) as [H1 H2]. split; auto. apply in_or_app. now right.
+Qed.
+
+Section CountGen.
+  Variable A : automaton N cpredicate.
+  Variable h : shost.
+  Variable f : N * spm -> bool.
+  Definition cntf (ms : list (N * spm)) : nat := length (filter f ms).
+  Lemma cntf_app l1 l2 : cntf (l1 ++ l2) = (cntf l1 + cntf l2)%nat.
+  Proof. unfold cntf. now rewrite filter_app, app_length. Qed.
+
+  Definition contributes_f (x : N * spm) : Prop := exists e, emit_of string_dom A h x e /\ (0 < cntf e)%nat.
+
+  Lemma emits_none_f T ms : emits_all string_dom A h T ms -> (forall x, In x T -> ~ contributes_f x) -> cntf ms = 0%nat.
+  Proof.
+    induction 1 as [|x e T ms He HT IH]; intros Hn; [reflexivity|]. rewrite cntf_app.
+    rewrite IH by (intros y Hy; apply Hn; now right).
+    destruct (cntf e) eqn:Ec; auto. exfalso. apply (Hn x (or_introl eq_refl)). exists e. split; auto. lia.
+  Qed.
+
+  Lemma emits_at_most_one_f T ms :
+    emits_all string_dom A h T ms -> NoDup (map (kview string_dom A) T) ->
+    (forall x e, In x T -> emit_of string_dom A h x e -> (cntf e <= 1)%nat) ->
+    (forall x y, In x T -> In y T -> contributes_f x -> contributes_f y -> kview string_dom A x = kview string_dom A y) ->
+    (cntf ms <= 1)%nat.
+  Proof.
+    induction 1 as [|x e T ms He HT IH]; intros Hnd H1 Hpair; [cbn; lia|]. rewrite cntf_app.
+    cbn [map] in Hnd. inversion Hnd as [|? ? Hni Hnd']; subst.
+    destruct (cntf e) eqn:Ec.
+    - cbn [plus]. apply IH; auto.
+      + intros y e' Hy. apply H1. now right.
+      + intros y z Hy Hz. apply Hpair; now right.
+    - assert (Hx : contributes_f x) by (exists e; split; auto; lia).
+      rewrite (emits_none_f T ms HT).
+      + specialize (H1 x e (or_introl eq_refl) He). lia.
+      + intros y Hy Cy. apply Hni. rewrite (Hpair x y (or_introl eq_refl) (or_intror Hy) Hx Cy). now apply in_map.
+  Qed.
+End CountGen.
+
+Section EmptyPattern.
+  Variable A : automaton N cpredicate.
+  Variable ids : list N.
+  Hypothesis HWF : WF string_dom A ids.
+  Variable L : slabelling (K:=N) (P:=cpredicate).
+  Hypothesis HL : slab_ok (char_ceqb N.eqb) (char_refutes N.eqb) A L = true.
+  Hypothesis HU : cert_unamb (char_ceqb N.eqb) (char_refutes N.eqb) A L = true.
+  Hypothesis HESC : empty_scope_closed A = true.
+  Hypothesis HER : empty_keys_at_root A = true.
+  Variable cs : list (list (constraint N cpredicate)).
+  Variable present : list bool.
+  Hypothesis HEP : empty_pattern_keys A cs = true.
+  Hypothesis HCC : cert_complete (char_entails N.eqb) (char_refutes N.eqb) A cs present = true.
+  Variable h : shost.
+  Variable i : nat.
+  Hypothesis Hi : nth_error cs i = Some [].
+  Hypothesis Hp : nth_error present i = Some true.
+
+  (** the root records the empty pattern, with an empty key list *)
+  Lemma root_accepts_empty : exists st0, get_state A (au_root A) = Ok st0 /\ In (N.of_nat i, []) (a_matches st0).
+  Proof.
+    assert (Hacc : aaccepts (sval h 0) A (N.of_nat i)).
+    { apply (cert_complete_sound (char_entails N.eqb) (char_refutes N.eqb) (sval h 0) (s_entails_sound h 0) (s_refutes_sound h 0)
+               A cs present i [] HCC Hi Hp). intros d []. }
+    destruct Hacc as [t [st [Hr [G Hin]]]]. apply in_map_iff in Hin as [[p keys] [Ep Hpk]]. cbn in Ep. subst p.
+    destruct (get_state_in _ _ _ G) as [Hst Hid].
+    unfold empty_pattern_keys in HEP. rewrite forallb_forall in HEP. specialize (HEP st Hst).
+    rewrite forallb_forall in HEP. specialize (HEP _ Hpk). cbn [fst snd] in HEP. rewrite Nnat.Nat2N.id, Hi in HEP.
+    destruct keys as [|k ks]; [|discriminate].
+    unfold empty_keys_at_root in HER. rewrite forallb_forall in HER. specialize (HER st Hst).
+    apply orb_true_iff in HER as [Er|Ek].
+    - apply N.eqb_eq in Er. rewrite Hid in Er. subst t. eauto.
+    - rewrite forallb_forall in Ek. specialize (Ek _ Hpk). discriminate.
+  Qed.
+
+  Lemma root_item_unbound x : IInv A L h x -> fst x = au_root A -> snd x = SUnbound.
+  Proof.
+    destruct x as [t m]. intros [[[_ E]|[st_s [e [Hs [He [Ht _]]]]]] _] Er; cbn [fst snd] in *; [exact E|].
+    exfalso. rewrite Er in Ht. exact (no_edge_into_root A ids HWF st_s e Hs He Ht).
+  Qed.
+
+  Theorem s_empty_once fuel ms : run string_dom fuel A h = Ok ms -> cntp (N.of_nat i) ms = 1%nat.
+  Proof.
+    intros R. destruct root_accepts_empty as [st0 [G0 Hroot]].
+    destruct (get_state_in _ _ _ G0) as [Hst0 _].
+    destruct (run_trace string_dom string_dom_eq A h fuel ms R) as [T [T1 [_ [T3 [T4 [T5 [Tnd Tem]]]]]]].
+    assert (HI : forall x, In x T -> IInv A L h x).
+    { intros x Hx. apply (creach_IInv A ids HWF L HL h HESC). now apply (trace_creach string_dom A h T T5). }
+    pose proof (cert_unamb_nodup (char_ceqb N.eqb) (char_refutes N.eqb) A L) as Hnodup.
+    (* at least once: the root item emits it *)
+    assert (Hge : (1 <= cntp (N.of_nat i) ms)%nat).
+    { destruct T1 as [y0 [Hy0 [Ef _]]]. cbn [fst] in Ef.
+      destruct (T4 y0 Hy0) as [_ [e [_ [st [G Em]]]]]. rewrite Ef, G0 in G. inversion G; subst st.
+      destruct (s_emit_cntp h st0 (snd y0) e (N.of_nat i) (Hnodup st0 HU Hst0) Em) as [_ H2].
+      destruct (H2 Hroot) as [_ Hin].
+      assert (In (N.of_nat i, SUnbound) ms) by (eapply T3; eauto; exists st0; rewrite Ef; auto).
+      apply cntp_pos_in. eauto. }
+    (* at most once *)
+    assert (Hle : (cntp (N.of_nat i) ms <= 1)%nat).
+    { apply (emits_at_most_one_f A h (fun pm => N.eqb (fst pm) (N.of_nat i)) T ms Tem Tnd).
+      - intros [t m] e Hx [st [G Em]]. cbn [fst snd] in *. destruct (get_state_in _ _ _ G) as [Hst _].
+        destruct (s_emit_cntp h st m e (N.of_nat i) (Hnodup st HU Hst) Em) as [H1 H2].
+        change (cntf (fun pm => N.eqb (fst pm) (N.of_nat i)) e) with (cntp (N.of_nat i) e).
+        destruct (cntp (N.of_nat i) e) eqn:Ec; [lia|].
+        (* the state accepts i, so it is the root *)
+        assert (Hacc : In (N.of_nat i) (map fst (a_matches st))) by (apply H1; lia).
+        pose proof (HI _ Hx) as Ix. destruct Ix as [_ Im]. cbn [fst snd] in Im.
+        assert (Er : t = au_root A).
+        { destruct m as [|a len].
+          - apply (cert_unamb_sound (char_ceqb N.eqb) (char_ceqb_spec N.eqb N.eqb_eq) (char_refutes N.eqb) (sval h 0)
+                     (s_refutes_sound h 0) A L HL t (au_root A) st st0 (N.of_nat i) HU (Im 0) (ar_root _ _) G G0 Hacc).
+            apply in_map_iff. exists (N.of_nat i, []). auto.
+          - destruct Im as [_ [_ Ir]].
+            apply (cert_unamb_sound (char_ceqb N.eqb) (char_ceqb_spec N.eqb N.eqb_eq) (char_refutes N.eqb) (sval h a)
+                     (s_refutes_sound h a) A L HL t (au_root A) st st0 (N.of_nat i) HU Ir (ar_root _ _) G G0 Hacc).
+            apply in_map_iff. exists (N.of_nat i, []). auto. }
+        subst t. rewrite G0 in G. inversion G; subst st.
+        destruct (H2 Hroot) as [E1 _]. lia.
+      - intros [t1 m1] [t2 m2] Hx Hy [e1 [[st1 [G1 Em1]] Hp1]] [e2 [[st2 [G2 Em2]] Hp2]]. cbn [fst snd] in *.
+        destruct (get_state_in _ _ _ G1) as [Hst1 _]. destruct (get_state_in _ _ _ G2) as [Hst2 _].
+        destruct (s_emit_cntp h st1 m1 e1 (N.of_nat i) (Hnodup st1 HU Hst1) Em1) as [A1 _].
+        destruct (s_emit_cntp h st2 m2 e2 (N.of_nat i) (Hnodup st2 HU Hst2) Em2) as [A2 _].
+        pose proof (HI _ Hx) as I1. pose proof (HI _ Hy) as I2.
+        assert (Hroot_of : forall t m st, IInv A L h (t, m) -> get_state A t = Ok st -> In (N.of_nat i) (map fst (a_matches st)) -> t = au_root A).
+        { intros t m st [_ Im] G Hacc. cbn [fst snd] in Im. destruct m as [|a len].
+          - apply (cert_unamb_sound (char_ceqb N.eqb) (char_ceqb_spec N.eqb N.eqb_eq) (char_refutes N.eqb) (sval h 0)
+                     (s_refutes_sound h 0) A L HL t (au_root A) st st0 (N.of_nat i) HU (Im 0) (ar_root _ _) G G0 Hacc).
+            apply in_map_iff. exists (N.of_nat i, []). auto.
+          - destruct Im as [_ [_ Ir]].
+            apply (cert_unamb_sound (char_ceqb N.eqb) (char_ceqb_spec N.eqb N.eqb_eq) (char_refutes N.eqb) (sval h a)
+                     (s_refutes_sound h a) A L HL t (au_root A) st st0 (N.of_nat i) HU Ir (ar_root _ _) G G0 Hacc).
+            apply in_map_iff. exists (N.of_nat i, []). auto. }
+        pose proof (Hroot_of t1 m1 st1 I1 G1 (A1 Hp1)) as E1. pose proof (Hroot_of t2 m2 st2 I2 G2 (A2 Hp2)) as E2. subst t1 t2.
+        pose proof (root_item_unbound _ I1 eq_refl) as U1. pose proof (root_item_unbound _ I2 eq_refl) as U2.
+        cbn [snd] in U1, U2. subst. reflexivity. }
+    lia.
+  Qed.
+End EmptyPattern.
